@@ -39,6 +39,8 @@ SIG_F2 = ("C10:F2 BalancingLearner.remove_unfinished does not invalidate the los
           "loss(real=True) afterwards although every child reports equal losses")
 SIG_F23 = ("C10:F23 AverageLearner1D.tell_many with several samples at one abscissa (tell_many_at_point) leaves the told "
            "(seed, x) in pending_points")
+SIG_F10 = ("C10:F10 Learner2D.ask(tell_pending=False) truncates _stack to stack_size and drops corner points re-queued by "
+           "remove_unfinished: the corners are neither evaluated, pending nor queued, loss(real=False) raises ValueError('No points given')")
 SIG_F6 = ("C10:F6 Learner2D.remove_unfinished leaves the combined interpolator (_ip_combined) stale: loss(real=False) != "
           "loss(real=True) after a discard")
 SIG_F21 = ("C10:F21 AverageLearner1D.tell_many_at_point re-tells: a known seed is overwritten and counted again "
@@ -183,8 +185,18 @@ class Oracle:
             if le[1] == "ZeroDivisionError" and G.base_kind(self.spec) == "Avg":
                 self.err(SIG_F11, f"{name} after {G.short(op)}: loss(real=False) raised ZeroDivisionError "
                                   f"(npoints={G.short(snap['npoints'])}, {len(pend)} pending)")
+            elif le[1] == "ValueError" and G.base_kind(self.spec) == "L2D" and self._l2d_corners_lost(l):
+                self.err(SIG_F10, f"{name} after {G.short(op)}: loss(real=False) raised {G.short(le)}; a Learner2D has corner points that are "
+                                  f"neither in data, nor pending, nor on its stack")
+                self.stop = True
             else:
                 self.err(sig(self.spec, "loss-raises"), f"{name} after {G.short(op)}: loss(real=False) raised {G.short(le)}")
+
+    def _l2d_corners_lost(self, l):
+        for a, b in c09.leaves(self.ad, l):
+            if a.spec["kind"] == "L2D" and any(p not in b.data and p not in b.pending_points and p not in b._stack for p in b._bounds_points):
+                return True
+        return False
 
     def _same_x_batch(self, op, bad):
         pts = [self._leaf_point(p) for p in op[1]]
@@ -226,7 +238,7 @@ class Oracle:
         ad, name = self.ad, G.spec_name(self.spec)
         d = G.diff_snap(before, after)
         if self.spec["kind"] == "Bal" or G.base_kind(self.spec) == "L2D":
-            d = [k for k in d if k not in ("loss_real", "loss_exp")]      # cached; the freshly computed losses are compared
+            d = [k for k in d if k not in ("loss_real", "loss_exp", "child_exp")]     # cached; the freshly computed losses are compared
         if not d:
             return
         if self.spec["kind"] == "DS" and d == ["extras"] and ad.keeps_first and not same_value:
@@ -249,7 +261,7 @@ class Oracle:
         lr, le = after["loss_real"], after["loss_exp"]
         if isinstance(le, tuple) and le[:1] == ("exc",) or isinstance(lr, tuple) and lr[:1] == ("exc",):
             return      # reported by check_state
-        if lr != le and self.spec["kind"] == "Bal" and after["fresh_real"] == after["fresh_exp"]:
+        if lr != le and self.spec["kind"] == "Bal" and after["fresh_real"] == after["fresh_exp"] and le != after.get("child_exp"):
             self.err(SIG_F2, f"{name}: after remove_unfinished loss(real=False) = {G.short(le)} but loss(real=True) = {G.short(lr)}; "
                              f"the children all report {G.short(after['fresh_exp'])}")
         elif lr != le and G.base_kind(self.spec) == "L2D" and after.get("fresh_exp") == after.get("fresh_real"):
